@@ -69,7 +69,11 @@ func l3Build(s *c17l3Script) *l3World {
 		w.msgs[i] = cloneSlack(seededBytes(s.Seed^uint64(10+i), lens[i], false))
 		w.aads[i] = cloneSlack(seededBytes(s.Seed^uint64(20+i), alens[i], false))
 		w.nonces[i] = cloneSlack(seededBytes(s.Seed^uint64(30+i), spec.NonceSize, false))
-		w.cts[i] = cloneSlack(a.Seal(nil, w.nonces[i], w.msgs[i], w.aads[i]))
+		tmp, _, _, err := mkAEADKey(s.AEAD, unhx(s.AEAD.Key), true)
+		if err != nil {
+			panic(err)
+		}
+		w.cts[i] = cloneSlack(tmp.Seal(nil, w.nonces[i], w.msgs[i], w.aads[i])) // the shared AEAD stays unused until the clients start
 	}
 	w.blk16 = cloneSlack(seededBytes(s.Seed^40, 16, false))
 	return w
